@@ -180,6 +180,9 @@ def _check_structure(name, op, fails):
         red = op.reduce()
         if _same(red.in_structure(), ins) or _same(red.out_structure(), outs):
             fails.append(f'{name}: the reduced operator reports other structures [{_mode()}]')
+        d = _same(_struct_of(red.mv(x)), outs)
+        if d:
+            fails.append(f'{name}: the REDUCED operator returns {_describe(red.mv(x))}, declared {_describe(outs)}: {d} [{_mode()}]')
     except Exception as e:      # noqa: BLE001
         fails.append(f'{name}: reduce() raises {type(e).__name__} [{_mode()}]')
 
@@ -286,6 +289,43 @@ def promotion_table(w, seed, spec):
         if a != 'bool' and np.dtype((-x).dtype).name != a:
             fails.append(f'(-{a} array).dtype changes [{_mode()}]')
     fails += _other_mode('promotion_table', seed, spec)
+    return fails[:10]
+
+
+def reduced_scalars(w, seed, spec):
+    """scalar factors merged / moved by reduce(): the reduced operator still returns its declared structure on pytrees of
+    mixed dtypes (scalars no wider than the data: Python scalars, weak 0-d arrays, float32 / int32 scalars), plus the
+    conformance of the assumed contract `jnp.array(python scalar)` is weakly typed"""
+    from furax._base import core, diagonal
+    fails = []
+    for v in (1, 2.0):
+        if not (jnp.array(v).weak_type and jnp.asarray(v).weak_type and jnp.array(v).shape == ()):
+            fails.append(f'conformance: jnp.array({v!r}) is not a weakly typed 0-d array [{_mode()}]')
+    if not (jnp.asarray(2.0) * jnp.int32(3)).weak_type or (jnp.asarray(2j) * jnp.float32(3)).weak_type:
+        fails.append(f'conformance: weak-type rule of a weak scalar against a strongly typed operand [{_mode()}]')
+    rng = np.random.default_rng(seed)
+    wide = np.float64 if jax.config.jax_enable_x64 else np.float32
+    trees = [{'tod': S((2, 3), np.float32), 'ground': S((3,), wide)}, [S((3,), wide), S((3,), np.float32)], S((3,), np.float32)]
+    scalars = [(2, 3), (2.0, 0.5), (jnp.float32(2), jnp.float32(3)), (np.float32(2), 3), (jnp.int32(2), jnp.float32(0.5)),
+               (jnp.asarray(2.0), jnp.int32(3))]
+    for t in trees:
+        vals = jnp.asarray(rng.uniform(0.5, 1.5, (3,)).astype(np.float32))
+        D = diagonal.DiagonalOperator(vals, in_structure=t)
+        for a, b in scalars:
+            exprs = {f'{a!r} * ({b!r} * D)': lambda: a * (b * D), f'(D * {a!r}) / {b!r}': lambda: (D * a) / b,
+                     f'H({a!r}) @ D @ H({b!r})': lambda: core.HomothetyOperator(a, t) @ D @ core.HomothetyOperator(b, t),
+                     f'D @ H({a!r}) @ D @ H({b!r}) @ D': lambda: D @ core.HomothetyOperator(a, t) @ D @ core.HomothetyOperator(b, t) @ D,
+                     f'H({a!r}) @ H({b!r})': lambda: core.CompositionOperator([core.HomothetyOperator(a, t), core.HomothetyOperator(b, t)])}
+            for desc, make in exprs.items():
+                try:
+                    op = make()
+                except Exception as e:      # noqa: BLE001
+                    fails.append(f'{desc} on {_describe(t)}: cannot be built: {type(e).__name__} [{_mode()}]')
+                    continue
+                _check_structure(f'{desc} on {_describe(t)}', op, fails)
+                if len(fails) > 8:
+                    break
+    fails += _other_mode('reduced_scalars', seed, spec)
     return fails[:10]
 
 
